@@ -7,8 +7,8 @@ the module's `np` is a proxy of the real numpy in which array constructors give 
 act on symbols.  Every returned number is an expression tree, printed as a Mathlib term.  Data-dependent control flow on
 a symbolic value, or a numpy feature that does not work on object arrays, raises `Unsupported` (a broken obligation).
 
-Fixed by the trace: the sizes (K = 2, N = 3), the pin -> index map `p -> 2, q -> 0, r_m1 -> 1`, which pins are excited
-(`p` and `r_m1`; `q` is left unspecified and must count as zero).  The theorems of `Properties/C15.lean` identify each
+Fixed by the trace: the sizes (K = 2, N = 3), the pin -> index map `p -> 2, q -> 0, p_m1 -> 1`, which pins are excited
+(`p` and `p_m1`; `q` is left unspecified and must count as zero).  The theorems of `Properties/C15.lean` identify each
 traced result with the size-generic model evaluated at this instance.
 """
 from __future__ import annotations
@@ -19,7 +19,7 @@ from .symtrace import E, Unsupported, _num_to_E
 from .blocks import _model_module
 
 K, N = 2, 3
-PINS = [("p", None, 2), ("q", None, 0), ("r", "m1", 1)]       # (basename, mode, matrix index)
+PINS = [("p", None, 2), ("q", None, 0), ("p", "m1", 1)]       # (basename, mode, matrix index): two modes of port p
 
 
 class NPObj:
@@ -102,21 +102,21 @@ def trace_all(repo):
     try:
         try:
             sm = _sym_model(M)
-            names = [M.Pin(b, m).name for b, m, _ in PINS]                  # p, q, r_m1
+            names = [M.Pin(b, m).name for b, m, _ in PINS]                  # p, q, p_m1
             up, ur = E.csym("up"), E.csym("ur")
             out["get_T"] = ("R", [sm.get_T("p", "q")])
             out["get_PH"] = ("R", [sm.get_PH("p", "q")])
             out["get_A"] = ("C", [sm.get_A("p", "q")])
-            o = sm.get_output({"p": up, "r_m1": ur}, power=False)
+            o = sm.get_output({"p": up, "p_m1": ur}, power=False)
             out["get_output_amp"] = ("C", [o[n] for n in names])
-            o = sm.get_output({"p": up, "r_m1": ur}, power=True)
+            o = sm.get_output({"p": up, "p_m1": ur}, power=True)
             out["get_output_pow"] = ("R", [o[n] for n in names])
-            d = sm.get_data("r_m1", "p")
+            d = sm.get_data("p_m1", "p")
             for col, kind in (("T", "R"), ("dB", "R"), ("Phase", "R"), ("Amplitude", "C")):
                 out[f"get_data_{col}"] = (kind, _col(d, col))
-            f = sm.get_full_output({"p": up, "r_m1": ur}, power=False)
+            f = sm.get_full_output({"p": up, "p_m1": ur}, power=False)
             out["get_full_output_amp"] = ("C", [e for n in names for e in _col(f, n)])   # pin-major, then sweep point
-            f = sm.get_full_output({"p": up, "r_m1": ur}, power=True)
+            f = sm.get_full_output({"p": up, "p_m1": ur}, power=True)
             out["get_full_output_pow"] = ("R", [e for n in names for e in _col(f, n)])
             g = sm.get_full_data()
             pins = list(sm.pin_dic.keys())
@@ -162,9 +162,9 @@ def generate(repo: str) -> str:
            "import Mathlib.Analysis.Complex.Norm",
            "import Mathlib.LinearAlgebra.Matrix.Notation",
            "", "namespace Generated.Readout", "",
-           f"/-! traced instance: {K} sweep points, {N} pins `p, q, r_m1` at matrix indices `2, 0, 1`; `S k i j` is the entry",
-           "`S[k, i, j]` of the solved stack; excitation `{p: up, r_m1: ur}` (pin `q` unspecified). Vectors over pins are in the",
-           "order `p, q, r_m1`; sweep tables are indexed pin-major, then sweep point. -/", "",
+           f"/-! traced instance: {K} sweep points, {N} pins `p, q, p_m1` at matrix indices `2, 0, 1`; `S k i j` is the entry",
+           "`S[k, i, j]` of the solved stack; excitation `{p: up, p_m1: ur}` (pin `q` unspecified). Vectors over pins are in the",
+           "order `p, q, p_m1`; sweep tables are indexed pin-major, then sweep point. -/", "",
            f"variable (S : Fin {K} → Matrix (Fin {N}) (Fin {N}) ℂ) (up ur : ℂ)", ""]
     for name, (kind, es) in tr.items():
         shape = SHAPES[name]
@@ -211,16 +211,16 @@ def real_all(repo, env):
     lg.setLevel(logging.CRITICAL)
     try:
         out = {"get_T": [sm.get_T("p", "q")], "get_PH": [sm.get_PH("p", "q")], "get_A": [sm.get_A("p", "q")]}
-        o = sm.get_output({"p": up, "r_m1": ur}, power=False)
+        o = sm.get_output({"p": up, "p_m1": ur}, power=False)
         out["get_output_amp"] = [o[n] for n in names]
-        o = sm.get_output({"p": up, "r_m1": ur}, power=True)
+        o = sm.get_output({"p": up, "p_m1": ur}, power=True)
         out["get_output_pow"] = [o[n] for n in names]
-        d = sm.get_data("r_m1", "p")
+        d = sm.get_data("p_m1", "p")
         for col in ("T", "dB", "Phase", "Amplitude"):
             out[f"get_data_{col}"] = list(d[col].values)
-        f = sm.get_full_output({"p": up, "r_m1": ur}, power=False)
+        f = sm.get_full_output({"p": up, "p_m1": ur}, power=False)
         out["get_full_output_amp"] = [e for n in names for e in f[n].values]
-        f = sm.get_full_output({"p": up, "r_m1": ur}, power=True)
+        f = sm.get_full_output({"p": up, "p_m1": ur}, power=True)
         out["get_full_output_pow"] = [e for n in names for e in f[n].values]
         g = sm.get_full_data()
         pins = list(sm.pin_dic.keys())
